@@ -94,7 +94,9 @@ impl BlpHeader {
     /// 0 level means original image.
     pub fn mipmap_pixels(&self, i: usize) -> u32 {
         let (w, h) = self.mipmap_size(i);
-        w * h
+        // Dimensions come straight from the file header; saturate instead of overflowing so
+        // that oversized images are rejected by the subsequent length checks.
+        w.saturating_mul(h)
     }
 
     /// Return alpha bits count in encoding
